@@ -604,6 +604,9 @@ func (c *evalCtx) call(x *ast.CallExpr) tval {
 		}
 		if c.skolem && fname == "forall" {
 			sk := c.st.freshConst("sk_"+name, SInt)
+			// tautologies that invite a case split at the ends of the range (last / first element)
+			c.st.cmds = append(c.st.cmds, fmt.Sprintf("(assert (or (>= %s %s) (< %s (- %s 1)) (= %s (- %s 1))))", sk.S, hi.S, sk.S, hi.S, sk.S, hi.S))
+			c.st.cmds = append(c.st.cmds, fmt.Sprintf("(assert (or (< %s %s) (= %s %s) (> %s %s)))", sk.S, lo.S, sk.S, lo.S, sk.S, lo.S))
 			c.st.seed(sk)
 			c.st.seed(Add(sk, IntLit(1)))
 			c.st.seed(Sub(sk, IntLit(1)))
